@@ -271,6 +271,72 @@ PROPS["C06"] = {
             "single-character edits, bare complex type names.",
     "trusted": CODEC_TRUST,
 }
+FILE_TRUST = ["the container-reader model (AvroModel/File.lean) is hand-written from file.go; tied to /repo by differential execution of avro.ReadFile "
+              "on every generated, damaged and truncated file",
+              "encoding/binary.ReadVarint, io.ReadFull, bufio.Reader (modelled from their sources: clean EOF only before the first byte, ErrUnexpectedEOF after a partial read)",
+              "compress/flate, golang/snappy, hash/crc32 and the schema JSON parser + Schema.Codec are parameters of the model (Ext); the harness calls the "
+              "decompression libraries directly and hands their verdict per payload to the model",
+              "the record decoder is the codec model's `read` (C03/C04) into the zero value of the Go type (typedmemclr + codec.Read)",
+              "readN's chunked reading (1 MiB chunks) is modelled as such; memory consumption is outside the model (the harness measures it for unbacked declared lengths)"]
+PROPS["C07"] = {
+    "lean_modules": ["AvroModel.Props.C07"],
+    "required_theorems": ["delivers", "callback_error", "callback_error_count", "sync", "crc", "inflate", "damaged_block", "snappy_short",
+                          "snappy_garbled", "magic", "no_schema", "bad_schema", "unknown_codec", "no_codec_means_null", "no_panic",
+                          "valid_mkHeader", "fuel_enough"],
+    "harness": ["C07"],
+    "level_text": "Proof over a model of ReadFile / readFileHeader / readBytes / FileHeader.schema / the three decompress methods (AvroModel/File.lean; "
+                  "binary.ReadVarint and io.ReadFull modelled from their sources, flate / snappy / crc32 / schema parsing + codec construction as "
+                  "parameters, the record codec abstract): for every valid file (any header layout the reader accepts, any of the three codecs with "
+                  "decompress(compress x) = x as the only law, any block partition incl. empty blocks and left-over bytes, any record type whose records "
+                  "decode exactly) the reader delivers all declared records in order and returns nil (delivers); a callback failing first at record i "
+                  "gets exactly records 0..i and its own error value comes back (callback_error); a block whose trailing 16 bytes differ from the "
+                  "header's marker yields an error after delivering exactly the blocks up to it, nothing later (sync); a snappy CRC mismatch, an "
+                  "inflate/snappy failure or a snappy block shorter than 4 bytes yield an error with nothing of that block delivered (crc, inflate, "
+                  "snappy_garbled, snappy_short); wrong magic, missing or unusable schema, unknown codec yield an error with nothing delivered; a header "
+                  "without avro.codec behaves exactly like one with codec null; no input whatsoever makes the model panic (no_panic: negative lengths, short "
+                  "snappy blocks, lengths nothing backs - read in 1 MiB chunks by readN - are errors). Induction over the block list. "
+                  "Tie: files written by the real encoder (4 static struct types) and by the harness's own container writer from spec-level datums "
+                  "(random schemas/types, arbitrary partitions, metadata layouts), 3 codecs, read by the real avro.ReadFile through bufio.Reader; every "
+                  "bit of every sync marker, of the magic and of every snappy CRC trailer, sampled/all bits of compressed payloads, the callback failing "
+                  "at every record index, ~35 damaged-header variants and blocks no writer produces; the model is run on each derived input with the "
+                  "independent decompressors' verdicts and compared (delivered records, result class, error identity).",
+    "level_note": "Trusted: Lean kernel; the model-to-code tie is differential; decompressors and JSON/codec construction are parameters; "
+                  "expected records come from the generator (Go values written / datums via the specification function ofAvro), not from the reader. "
+                  "Each case line covers many derived inputs (class suffix nK); a deflate payload change that still inflates cannot be detected "
+                  "(no checksum in the format) and is judged against the decoding of what the independent inflater yields.",
+    "rule": "One PRNG. Static types struct{B []byte} (140+ records, blocks of 64+ records), struct{}, two richer structs (strings, slices, maps, "
+            "pointers, nested structs, omitempty) written by NewEncoderFor with block sizes {1,40,120,400,1500,1e5} and random flushes; random record "
+            "schemas (depth <= 3) with compatible targets written by the harness's own container writer: 1-7 blocks of 0-70 records, left-over bytes, "
+            "six metadata layouts (order, two map blocks, duplicate keys, empty key/value, no codec entry). Per file: intact + callback failing at every "
+            "index 0..n; every bit of magic, header sync, every block sync, every snappy CRC; compressed payload bits: all for payloads <= 24 B quick / "
+            "2 kB thorough, else 64 / 512 sampled. Header variants: missing/misspelt schema and codec keys, 8 unknown codec names, unparsable or "
+            "unfitting schema JSON, negative map counts, counts beyond the entries, negative lengths, unbacked lengths 2^20..2^63-1 (allocation measured: more than 64 MiB "
+            "is a failing input), 10-byte and overlong "
+            "varints; data blocks with negative length, negative count, count beyond the payload, oversized length, trailing garbage; snappy and "
+            "deflate payloads of 0-4 random bytes.",
+    "trusted": FILE_TRUST,
+    "assumptions": ["`Tame`: the record decoder returns a value or an error (C06 for the codec model) - hypothesis of no_panic only",
+                    "the callback is a function of the global record index (it fails at a chosen index with a sentinel error)"],
+}
+PROPS["C08"] = {
+    "lean_modules": ["AvroModel.Props.C08"],
+    "required_theorems": ["truncation", "truncation_prefix", "ok_iff_boundary", "length_mem_boundaries"],
+    "harness": ["C08"],
+    "level_text": "Proof over the same model: for every valid file f = header ++ frames (any codec, partition, record type) and EVERY cut position "
+                  "k <= length, reading the first k bytes delivers exactly the records of the blocks whose payload ends at or before k (each whole, in "
+                  "order: a prefix of the file's records) and returns nil iff k is the end of the header or of a block; every other k is an error "
+                  "(truncation, truncation_prefix, ok_iff_boundary). The boundary is decided from the code: records are handed over once the payload "
+                  "is complete, before the sync marker is read, so a cut inside a sync marker delivers that block and then reports an error. "
+                  "Induction over the block list with case analysis of k (inside count varint / length varint / payload / sync marker / on a boundary), "
+                  "using the modelled ReadVarint (io.EOF only before the first byte) and ReadFull; the compressor enters only through "
+                  "decompress(compress x) = x on complete payloads. Tie: for every generated file every cut position 0..len is executed against the real "
+                  "avro.ReadFile and the model, and judged by the layout the reference reader (Container.lean) finds in the intact file.",
+    "level_note": "Trusted: as C07. Files <= 4 kB quick, <= 16 kB (plus a few up to 64 kB, beyond bufio's buffer) thorough, all cuts each.",
+    "rule": "Same file generators as C07 (real encoder for 4 static types, own writer for random schemas; 3 codecs; arbitrary partitions incl. empty "
+            "blocks, count 0, left-over bytes, zero-length payloads, two-byte count varints). Per file every cut position 0..len (exhaustive per file).",
+    "trusted": FILE_TRUST,
+    "assumptions": ["the callback never fails in C08 runs"],
+}
 
 NOT_APPLICABLE = {}
 
